@@ -48,8 +48,9 @@ def recheck(ids):
             head = sh("git -C /verif rev-parse --short HEAD")[1].strip()
             meta["ran"].append({"cmd": f"recheck after strengthening (verif {head}): VERIF_REPO=<worktree> ./check {pid} --tier quick", "exit": rcc,
                                 "wall_s": round(time.time() - t0, 1), "first_violations": viol})
-            meta["caught_by_quick_check"] = rcc == 1
-            json.dump(meta, open(os.path.join(dst, "meta.json"), "w"), indent=1)
+            if os.environ.get("RECHECK_NO_WRITE") != "1":     # (robustness runs at other seeds do not touch the filed record)
+                meta["caught_by_quick_check"] = rcc == 1
+                json.dump(meta, open(os.path.join(dst, "meta.json"), "w"), indent=1)
             print(f"{sid}: recheck exit={rcc} {'CAUGHT' if rcc == 1 else 'MISSED'} {viol[:1]}", flush=True)
         finally:
             sh(f"git -C /repo worktree remove --force {wt}")
